@@ -11,14 +11,14 @@
     The model (Model/Tail.v) is the CURRENT code, i.e. after the repairs 4eee3bd
     (no division by an unset block time), 88b6cbe (Validate rejects negative
     durations), bf876d4 (estimate clamped between old tail and head), efa8b16 and
-    85f942c (downward walk, also from one above the store's head). For this code
-    "never panics", "never wraps" and "keeps the window" hold at FULL strength;
-    "still one gap-free chain" and "never wedges" hold except in two regions that
-    stay open findings: F9a (new tail above the store's head + 1: orphan, refused
-    DeleteRange, Start fails, permanently once the local head is expired) and F9f
-    (tail moved down from a single-header store, last chunk refused). Both regions
-    are characterised exactly and witnessed by [_refuted] theorems. Statements
-    only; proofs are in Proofs/TailP.v.
+    85f942c (downward walk, also from one above the store's head), 80904e6
+    (syncStore.Append accepts the current head again). For this code "never
+    panics", "never wraps" and "keeps the window" hold at FULL strength; "still one
+    gap-free chain" and "never wedges" hold except in ONE region that stays an open
+    finding: F9a (new tail above the store's head + 1: orphan, refused DeleteRange,
+    Start fails, permanently once the local head is expired). The region is
+    characterised exactly and witnessed by [_refuted] theorems. Statements only;
+    proofs are in Proofs/TailP.v.
 
     Notation: [start_run p times now st] is Start() of a freshly configured
     Syncer with parameters p, on a store st, against a network whose chain has the
@@ -142,17 +142,23 @@ Example C16_far_case_nonvacuous :
   (tmf w9c_times 40 < tmf w9c_times 61 - 100)%Z /\ (tmf w9c_times 41 >= tmf w9c_times 61 - 100)%Z.
 Proof. exact wok_far_run. Qed.
 
-(** ** 6. The whole property, outside the two regions of the open findings
+(** the tail can be moved down from a single-header store (former finding F9f) *)
+Example C16_move_down_from_single_header :
+  params_valid w9f_params = true /\
+  start_run w9f_params (mk_times 0%Z (repeat w_sec 69)) (69 * w_sec + 1)%Z (Store 62 62 []) =
+    (Obs OOk [] (Store 61 70 []), WDone).
+Proof. exact w9f_fixed. Qed.
+
+(** ** 6. The whole property, outside the region of the open finding
 
     [ok16] (Oracle/C16.v) is the decidable re-statement of EVERY clause of C16 on an
     observation: parameters rejected iff invalid, no panic, no failure of Start that
     the environment does not explain, in window mode only heights of the chain are
     requested, the store afterwards is one gap-free chain with 1 <= Tail <= Head and
     nothing outside of it, and under the spacing hypothesis no removed header is
-    younger than the pruning window. [region16] is 2 for WDelete (F9a), 7 for
-    WChunk (F9f), 0 otherwise. For ALL parameters, chains, clocks and every store
-    that is one gap-free chain: a run outside those two regions satisfies the
-    whole property. *)
+    younger than the pruning window. [region16] is 2 for WDelete (F9a), 0
+    otherwise. For ALL parameters, chains, clocks and every store that is one
+    gap-free chain: a run outside that region satisfies the whole property. *)
 Theorem C16_full_outside_known_regions : forall p times now st,
   wf st (net_head times) -> net_head times + 2 < two64 -> 1 <= net_head times -> sane (p_window p) ->
   let c := Case16 p times now st (start_step p times now st) in
@@ -178,12 +184,6 @@ Theorem C16_never_wedges_refuted : exists p times now st,
                      (Nat.iter k (fun s => o_store (start_step p times now s)) st)) = OErr.
 Proof. exact never_wedges_refuted. Qed.
 
-(** F9f: moving the tail down from a single-header store fails on the last chunk *)
-Theorem C16_move_down_refuted : exists p times now st,
-  params_valid p = true /\ wf st (net_head times) /\
-  start_run p times now st = (Obs OErr [] (Store 61 62 []), WChunk).
-Proof. exact move_down_refuted. Qed.
-
 Print Assumptions C16_no_panic.
 Print Assumptions C16_estimate_no_panic.
 Print Assumptions C16_find_tail_no_panic.
@@ -197,4 +197,3 @@ Print Assumptions C16_no_wedge_partial.
 Print Assumptions C16_full_outside_known_regions.
 Print Assumptions C16_tail_within_chain_refuted.
 Print Assumptions C16_never_wedges_refuted.
-Print Assumptions C16_move_down_refuted.
